@@ -629,17 +629,28 @@ def install(I, inline_visitors=True, modular_signature=True, hole_methods=("visi
         o, name = args[0], args[1]
         if name in ("startswith", "endswith", "isidentifier"):
             return [(st, fresh(f"{o.t}.{name}", "bool"))]
+        if name == "bit_length":
+            return [(st, fresh(f"{o.t}.bit_length", "int"))]
         return None
 
     I.specs["method_obj"] = method_obj
 
     def getattr_obj(I_, st, args, kwargs, node):
         o, name = args
-        if name in ("startswith", "endswith", "isidentifier"):
+        if name in ("startswith", "endswith", "isidentifier", "bit_length"):
             return [(st, BoundMethod(o, name))]
         return None
 
     I.specs["getattr_obj"] = getattr_obj
+
+    def hex_spec(I_, st, args, kwargs, node):
+        # hex(<constant of the node>): text computed from node data (visit_Const for very large ints)
+        a = args[0]
+        if isinstance(a, Sym):
+            return [(st, Sym(models.py_repr_obj(to_term(a, "obj")), "str", a.tags | {"repr"}))]
+        return [(st, hex(a))]
+
+    I.specs[("fn", id(hex))] = hex_spec
 
     def unpack_spec(I_, st, v, n, node):
         if isinstance(v, Sym) and v.k == "obj":
